@@ -38,6 +38,13 @@ func (c16) Components() map[string][]string {
 func (c16) Gen(r *sim.Rand, tier string, run uint64) *sim.Scenario {
 	sc := &sim.Scenario{Cfg: map[string]int64{}}
 	ops, _ := genAsmHistory(r, 36, 400, true, false)
+	// a "hot" label collects most references, so that its pending-reference list is long
+	hot := int64(r.Intn(allLabelIdx))
+	for i := range ops {
+		if ops[i].K == "ref" && r.Chance(1, 2) {
+			ops[i].N = []int64{hot}
+		}
+	}
 	if r.Chance(1, 3) {
 		at := r.Intn(len(ops) + 1)
 		ops = append(ops[:at], append([]sim.Op{{K: "finalize"}}, ops[at:]...)...)
@@ -114,6 +121,9 @@ func (c16) Gen(r *sim.Rand, tier string, run uint64) *sim.Scenario {
 	sc.Cfg["gentext"] = int64(r.Intn(2))
 	// capacity of a relative to head+tail: 0 exact, -1 one short, -2 far short, 1 ample, 2 nil targets
 	sc.Cfg["capmode"] = int64(sim.PickInt(r, 1, 1, 1, 0, 0, -1, -1, -2, 2))
+	// a second clone of the same original, alive at the same time, receives the same tail
+	// shifted by one byte and is then discarded: two emitters derived from one parent
+	sc.Cfg["twoclones"] = int64(r.Intn(3) / 2)
 	return sc
 }
 
@@ -254,7 +264,7 @@ func (c16) Exec(sc *sim.Scenario, env *sim.Env) *sim.Violation {
 	var aTargetAtClone []byte
 	a := asm.NewEmitter(aTarget, gentext)
 	d := asm.NewEmitter(mk(acap), gentext)
-	var e *asm.Emitter
+	var e, e2 *asm.Emitter
 	listings := gentext && !nilTargets
 
 	var snapA emView // a at Clone time
@@ -286,6 +296,13 @@ func (c16) Exec(sc *sim.Scenario, env *sim.Env) *sim.Violation {
 			p, pv := sim.RecoverLib(func() { e = a.Clone(mk(int(tailSize) + 8)) })
 			if p {
 				return &sim.Violation{Oracle: "clone_panic", Step: i, Msg: sim.PanicString(pv)}
+			}
+			if sc.C("twoclones") != 0 {
+				sim.RecoverLib(func() { e2 = a.Clone(mk(int(tailSize) + 24)) })
+				if e2 != nil {
+					asmApply(e2, sim.Op{K: "ins", S: "NOP"})
+					st.Probe("second_clone_alive")
+				}
 			}
 			phase = 1
 			st.ProbeIf(nilTargets, "clone_of_nil_target")
@@ -430,13 +447,17 @@ func (c16) Exec(sc *sim.Scenario, env *sim.Env) *sim.Violation {
 				refsHead[op.Arg(0)] = true
 			}
 		case 1:
+			dOverflows := !nilTargets && d.Len()+opSize(op) > d.Cap()
 			pe, me := asmApply(e, op)
 			pd, md := asmApply(d, op)
+			if e2 != nil {
+				asmApply(e2, op) // the sibling clone: same calls, addresses one byte higher
+			}
 			env.ObsBool(pe)
 			if pe != pd {
 				// d may refuse for capacity what the roomy clone accepts; that is only legitimate
 				// if the Append is going to be refused, which ends the run before any comparison
-				if !(pd && !pe && md == "not enough space") {
+				if !(pd && !pe && dOverflows) {
 					return &sim.Violation{Oracle: "clone_op_outcome_differs", Step: i, Msg: fmt.Sprintf("op %s: clone panicked=%v (%s), direct panicked=%v (%s)", op, pe, me, pd, md)}
 				}
 			}
